@@ -1,6 +1,7 @@
 package main
 
 import (
+	"net"
 	"fmt"
 	"math"
 	"strings"
@@ -421,7 +422,7 @@ func c12Jobs(tier string) []*SeqJob {
 		}
 		return guard(func() (string, string) { c, d, _ := c12Run(ops[0], ncommon, ops[2], seq, reps); return c, d })
 	}
-	return []*SeqJob{j, c12LemmaJob(tier), c12BucketTagLengthJob(tier)}
+	return []*SeqJob{j, c12LemmaJob(tier), c12BucketTagLengthJob(tier), c12DeadDestinationJob(tier)}
 }
 
 // c12LemmaJob: per-metric accounting. For every shape of a larger alphabet, k copies of the
@@ -805,6 +806,105 @@ func c12BucketTagLengthJob(tier string) *SeqJob {
 		fmt.Sscan(ops[2], &bi)
 		fmt.Sscan(ops[3], &k)
 		return guard(func() (string, string) { c, d, _ := run(ops[0], prec, bi, k); return c, d })
+	}
+	return j
+}
+
+// c12DeadDestinationJob: one of two destinations is a port nobody listens on (every second send to it fails with
+// "connection refused", see the C15 job of the same name): whatever the reporter does with a batch whose send
+// failed, no datagram that reaches the healthy destination is longer than the limit, and none of the values arrives
+// there twice. Dead destination first and last, N metrics for N around one, two and several full packets.
+func c12DeadDestinationJob(tier string) *SeqJob {
+	const limit = 1440
+	run := func(kind string, deadFirst bool, n int, flushEvery int) (string, string, int) {
+		good := newFastSink()
+		defer good.close()
+		dead, derr := net.DialUDP("udp", &net.UDPAddr{IP: net.IPv4(127, 0, 0, 1)}, &net.UDPAddr{IP: net.IPv4(127, 0, 0, 1), Port: 1})
+		if derr != nil {
+			return "", "", 0
+		}
+		defer dead.Close()
+		addrs := []string{dead.LocalAddr().String(), good.addr}
+		if !deadFirst {
+			addrs = []string{good.addr, dead.LocalAddr().String()}
+		}
+		r, err := m3.NewReporter(m3.Options{HostPorts: addrs, Service: "svc", Env: "test", Protocol: m3Proto(kind), MaxQueueSize: 64, MaxPacketSizeBytes: limit})
+		if err != nil {
+			return "new-reporter", err.Error(), 0
+		}
+		var dgs [][]byte
+		for i := 0; i < n; i++ {
+			r.AllocateCounter(fmt.Sprintf("u.metric.%04d", i), map[string]string{"k": "some-value"}).ReportCount(int64(i + 1))
+			if flushEvery > 0 && i%flushEvery == flushEvery-1 {
+				r.Flush()
+			}
+			if i%64 == 63 {
+				dgs = good.readAvailable(dgs)
+			}
+		}
+		if err := r.Close(); err != nil {
+			return "close-error", err.Error(), n
+		}
+		where := fmt.Sprintf("[%s, dead destination %s, %d metrics, flush every %d]", kind, map[bool]string{true: "first", false: "last"}[deadFirst], n, flushEvery)
+		seen := map[int64]int{}
+		for i, dg := range good.readAvailable(dgs) {
+			if len(dg) > limit {
+				return "datagram-exceeds-max-packet-size", fmt.Sprintf("%s datagram %d at the healthy destination has %d bytes, limit %d", where, i, len(dg), limit), n
+			}
+			msg, err := decodeMessage(kind, dg)
+			if err != nil {
+				return "datagram-does-not-decode", fmt.Sprintf("%s datagram %d: %v", where, i, err), n
+			}
+			for _, m := range msg.Batch.Metrics {
+				if strings.HasPrefix(m.Name, "u.metric.") {
+					seen[m.Value.Count]++
+					if seen[m.Value.Count] > 1 {
+						return "value-arrived-twice", fmt.Sprintf("%s %s arrived %d times at the healthy destination", where, m.Name, seen[m.Value.Count]), n
+					}
+				}
+			}
+		}
+		return "", "", n
+	}
+	sizes := []int{1, 20, 40, 41, 80, 200}
+	if tier == "thorough" {
+		sizes = append(sizes, 400, 1000)
+	}
+	j := &SeqJob{Property: "C12", Name: "packet-limit-with-a-dead-destination", NoBonus: true}
+	j.Run = func(ctx *SeqCtx) {
+		for _, kind := range []string{"compact", "binary"} {
+			for _, df := range []bool{true, false} {
+				for _, n := range sizes {
+					for _, fe := range []int{0, 1, 7} {
+						if ctx.Expired() {
+							return
+						}
+						kind, df, n, fe := kind, df, n, fe
+						steps := 0
+						cl, det := guard(func() (string, string) { a, b, s := run(kind, df, n, fe); steps = s; return a, b })
+						ops := []string{kind, fmt.Sprint(df), fmt.Sprint(n), fmt.Sprint(fe)}
+						ctx.Case(steps, true, func() string { return fmt.Sprint(ops) })
+						ctx.State(fmt.Sprint(ops))
+						if cl != "" {
+							ctx.Fail(cl, det, ops)
+							if ctx.viol != nil {
+								return
+							}
+						}
+					}
+				}
+			}
+		}
+		ctx.Alphabet(fmt.Sprintf("metrics per run %v", sizes), "dead destination first / last", "no explicit flush, a flush after every metric, after every 7th", "compact, binary")
+		ctx.DepthDone(1)
+	}
+	j.Replay = func(ops []string) (string, string) {
+		var df bool
+		var n, fe int
+		fmt.Sscan(ops[1], &df)
+		fmt.Sscan(ops[2], &n)
+		fmt.Sscan(ops[3], &fe)
+		return guard(func() (string, string) { a, b, _ := run(ops[0], df, n, fe); return a, b })
 	}
 	return j
 }
